@@ -10,8 +10,11 @@ Model/Selector.v evaluated by Coq on the Go answers; and the same four invariant
 independent Python oracle on the Go answers.
 
 Part A (content).  The same random attribute histories on one dataset are written through the public
-API under the default configuration and under none / immediate / lazy / incremental / smart / toggled
-configurations (harness c19cfg), closed, reopened, dumped.  Gate: per-operation results and dumps are
+API under the default configuration and under none / immediate / lazy / incremental / smart / toggled /
+run-time-enabled (EnableLazyRebalancing early in the session, directed) configurations (harness c19cfg),
+closed, reopened, dumped; part of the histories contain session boundaries (Close + OpenForWrite with the
+configuration's WriteOptions + OpenDataset: cached-header attribute paths).  Coq side: Props/C19.v
+(record-list model) and Props/C19Compose.v (composed byte-level model, every history x configuration list x wiring).  Gate: per-operation results and dumps are
 identical across configurations and equal a Python dict (last write wins, delete removes).  The three
 B-tree delete entry points the configuration selects between are compared record by record
 (harness c19del) against "remove the first record with an equal hash".
